@@ -288,7 +288,10 @@ type c13Resp struct {
 
 type c13Caller struct {
 	tok       *c13Tok
+	ctx       context.Context
 	cancel    context.CancelFunc
+	deadline  time.Time // zero: the call's context carries no deadline
+	expired   bool      // the scheduler has seen the deadline pass (step `expire`)
 	at        string // "", cache, lock, select, done
 	park      chan struct{}
 	cancelled bool
@@ -418,6 +421,8 @@ func c13Class(payload []byte, err error, tok *c13Tok) string {
 			switch {
 			case strings.Contains(rest, "context canceled"):
 				return "fe-cancel"
+			case strings.Contains(rest, "context deadline exceeded"):
+				return "fe-deadline" // the download ended with the deadline of ITS context
 			case strings.Contains(rest, "http status not ok"):
 				return "fe-5xx"
 			case strings.Contains(rest, "failed to unmarshal response"):
@@ -428,6 +433,9 @@ func c13Class(payload []byte, err error, tok *c13Tok) string {
 		if errors.Is(err, context.Canceled) {
 			return "ctx"
 		}
+		if errors.Is(err, context.DeadlineExceeded) {
+			return "ctxdl" // the call's own context error, its deadline has passed
+		}
 		return "other"
 	case strings.HasPrefix(msg, "unable to validate signature: "):
 		return "nokey"
@@ -437,10 +445,36 @@ func c13Class(payload []byte, err error, tok *c13Tok) string {
 	return "other"
 }
 
-func (s *c13Sched) startCaller(tok *c13Tok) {
+// c13Deadline: how far in the future the deadline of a deadline-carrying call lies. The scheduler takes well under a millisecond
+// per step, so the deadline passes only where the scheduler says so (step `expire`: it sleeps until the deadline, waits for
+// ctx.Done() and for quiescence). c13DeadlineMargin: an unexpired deadline that comes closer than this is expired NOW (the step is
+// forced, which is just one more legal schedule); a deadline that passes during another step voids the schedule (its observations
+// can no longer be attributed to steps): the line is marked void=1 and dropped by the parent, and counted.
+const c13Deadline = 12 * time.Millisecond
+const c13DeadlineMargin = 5 * time.Millisecond
+const c13DeadlineStep = 9 * time.Millisecond
+
+func (s *c13Sched) startCaller(tok *c13Tok, withDeadline bool) {
 	id := len(s.callers)
-	ctx, cancel := context.WithCancel(context.WithValue(context.Background(), c13CtxKey{}, &c13Info{s: s, id: id}))
-	c := &c13Caller{tok: tok, cancel: cancel, joined: -1}
+	base := context.WithValue(context.Background(), c13CtxKey{}, &c13Info{s: s, id: id})
+	var ctx context.Context
+	var cancel context.CancelFunc
+	c := &c13Caller{tok: tok, joined: -1}
+	if withDeadline {
+		// the way a request handler with a timeout does it: context.WithDeadline / WithTimeout around the caller's context
+		// (the k-th deadline of a schedule lies c13DeadlineStep later than the one before, so that two of them never pass together)
+		nth := 0
+		for _, o := range s.callers {
+			if !o.deadline.IsZero() {
+				nth++
+			}
+		}
+		c.deadline = time.Now().Add(c13Deadline + time.Duration(nth)*c13DeadlineStep)
+		ctx, cancel = context.WithDeadline(base, c.deadline)
+	} else {
+		ctx, cancel = context.WithCancel(base)
+	}
+	c.ctx, c.cancel = ctx, cancel
 	s.callers = append(s.callers, c)
 	jws, err := jose.ParseSigned(tok.compact, c13Algs)
 	if err != nil {
@@ -575,6 +609,17 @@ func (s *c13Sched) ready(c *c13Caller) bool {
 	return c.joined >= 0 && c.joined < len(s.fetches) && s.fetches[c.joined].seenDone
 }
 
+// nextDeadline: the call whose context's deadline passes next (-1: none)
+func (s *c13Sched) nextDeadline() int {
+	best := -1
+	for i, c := range s.callers {
+		if !c.deadline.IsZero() && !c.expired && (best < 0 || c.deadline.Before(s.callers[best].deadline)) {
+			best = i
+		}
+	}
+	return best
+}
+
 func (s *c13Sched) enabled(maxCallers int, cancelsLeft int, rot bool, env bool) []c13Step {
 	var st []c13Step
 	if env && len(s.callers) < maxCallers {
@@ -595,6 +640,15 @@ func (s *c13Sched) enabled(maxCallers int, cancelsLeft int, rot bool, env bool) 
 		if env && !c.cancelled && cancelsLeft > 0 {
 			st = append(st, c13Step{kind: "cancel", id: i, w: 1})
 		}
+	}
+	// time is monotone: only the EARLIEST deadline that has not passed yet can pass next (also that of a call that has returned: a
+	// download may have been given its deadline)
+	if i := s.nextDeadline(); env && i >= 0 {
+		w := 1
+		if s.callers[i].at == "select" {
+			w = 4 // the interesting place: the call waits for the shared download
+		}
+		st = append(st, c13Step{kind: "expire", id: i, w: w})
 	}
 	for i, f := range s.fetches {
 		switch {
@@ -695,7 +749,8 @@ func c13ParseSet(txt string) []c13Key {
 // a scripted step: the head of a step as it appears in a line (observations, if any, are ignored);
 // `start` may also be written start:<kid>:<signer>
 type c13Script struct {
-	kind   string
+	kind     string
+	deadline bool // startd: the call's context carries a deadline
 	id     int
 	kid    string
 	signer int
@@ -719,14 +774,14 @@ func c13ParseScript(st string) (c13Script, bool) {
 		return x
 	}
 	switch p[0] {
-	case "start":
+	case "start", "startd":
 		if len(p) >= 6 {
-			return c13Script{kind: "start", kid: und(p[2]), signer: num(4)}, true
+			return c13Script{kind: "start", kid: und(p[2]), signer: num(4), deadline: p[0] == "startd"}, true
 		}
 		if len(p) >= 3 {
-			return c13Script{kind: "start", kid: und(p[1]), signer: num(2)}, true
+			return c13Script{kind: "start", kid: und(p[1]), signer: num(2), deadline: p[0] == "startd"}, true
 		}
-	case "go", "cancel", "upd":
+	case "go", "cancel", "upd", "expire":
 		if len(p) >= 2 {
 			return c13Script{kind: p[0], id: num(1)}, true
 		}
@@ -744,7 +799,7 @@ func c13ParseScript(st string) (c13Script, bool) {
 
 // c13RunSchedule executes one schedule on the real code and returns its line. With a script the steps are the given ones
 // (a step that is not possible in the current state is skipped), followed by a drain phase; otherwise they are drawn from r.
-func c13RunSchedule(r *hx.Rand, caseID string, skip bool, script []string, out io.Writer) map[string]int {
+func c13RunSchedule(r *hx.Rand, caseID string, skip bool, script []string, attempt int, out io.Writer) map[string]int {
 	stats := map[string]int{}
 	// the line is written step by step, so that a crash of the process (a panic inside a goroutine of the library cannot be
 	// recovered by the harness) leaves the schedule that led to it behind
@@ -766,6 +821,7 @@ func c13RunSchedule(r *hx.Rand, caseID string, skip bool, script []string, out i
 	}
 	var world [][]c13Key
 	maxCallers, maxCancels, maxRot, budget := 6, 6, 99, 0
+	maxDeadlines, deadlines, void := 0, 0, false
 	if !scripted {
 		world = [][]c13Key{c13RandomSet(r), c13RandomSet(r), c13RandomSet(r)}
 		s.served = world[0]
@@ -773,6 +829,7 @@ func c13RunSchedule(r *hx.Rand, caseID string, skip bool, script []string, out i
 		maxCancels = hx.Pick(r, 0, 0, 0, 1, 1, 2)
 		maxRot = hx.Pick(r, 0, 1, 1, 2, 3)
 		budget = 10 + 5*maxCallers + r.Intn(10)
+		maxDeadlines = hx.Pick(r, 0, 0, 0, 0, 0, 0, 0, 1, 1, 2) // calls whose context carries a deadline (starter or joiner, as the schedule has it)
 		put("rot:" + c13SetText(s.served) + ":")
 	}
 	cancels, pid, rots, sp := 0, 0, 0, 0
@@ -786,7 +843,15 @@ func c13RunSchedule(r *hx.Rand, caseID string, skip bool, script []string, out i
 		en := s.enabled(maxCallers, maxCancels-cancels, env && rots < maxRot, env)
 		var st c13Step
 		var sc c13Script
-		if scripted && sp < len(script) {
+		forced := false
+		if i := s.nextDeadline(); i >= 0 && time.Until(s.callers[i].deadline) < c13DeadlineMargin {
+			// a deadline that is about to pass on its own is made to pass NOW, as a step of the schedule
+			st, forced = c13Step{kind: "expire", id: i}, true
+			stats["expire-forced"]++
+		}
+		if forced {
+			// fall through to the step
+		} else if scripted && sp < len(script) {
 			var ok bool
 			sc, ok = c13ParseScript(script[sp])
 			sp++
@@ -807,7 +872,7 @@ func c13RunSchedule(r *hx.Rand, caseID string, skip bool, script []string, out i
 		} else {
 			progress := false
 			for _, e := range en {
-				if e.kind != "rot" && e.kind != "cancel" {
+				if e.kind != "rot" && e.kind != "cancel" && e.kind != "expire" {
 					progress = true
 				}
 			}
@@ -835,19 +900,27 @@ func c13RunSchedule(r *hx.Rand, caseID string, skip bool, script []string, out i
 		case "start":
 			pid++
 			var tok *c13Tok
+			withDl := sc.deadline
 			if scripted {
 				tok = c13MakeTok(sc.kid, sc.signer, pid)
 			} else {
 				tok = c13RandomTok(r, append([][]c13Key{s.served}, world...), pid)
+				withDl = deadlines < maxDeadlines && r.Chance(60)
 			}
 			id := len(s.callers)
-			s.startCaller(tok)
+			s.startCaller(tok, withDl)
 			s.await()
 			kid := tok.kid
 			if kid == "" {
 				kid = "-"
 			}
-			emit(fmt.Sprintf("start:%d:%s:%s:%d:%d", id, kid, tok.alg, tok.signer, tok.pid))
+			head := "start"
+			if withDl {
+				head = "startd"
+				deadlines++
+				stats["start-with-deadline"]++
+			}
+			emit(fmt.Sprintf("%s:%d:%s:%s:%d:%d", head, id, kid, tok.alg, tok.signer, tok.pid))
 			stats["start"]++
 		case "go":
 			c := s.callers[st.id]
@@ -880,6 +953,47 @@ func c13RunSchedule(r *hx.Rand, caseID string, skip bool, script []string, out i
 			s.await()
 			emit(fmt.Sprintf("cancel:%d", st.id))
 			stats["cancel"]++
+		case "expire":
+			// the deadline of this call's context passes: wait for it (real time; the JWKS endpoint holds its answers meanwhile,
+			// every other party is parked), see ctx.Done() closed, then see which downloads end with it. A download whose OWN
+			// context carries a deadline that has passed by now ends too (its timer is a different one: wait for its Done()).
+			c := s.callers[st.id]
+			if d := time.Until(c.deadline); d > 0 {
+				time.Sleep(d)
+			}
+			select {
+			case <-c.ctx.Done():
+			case <-time.After(c13Timeout):
+				s.anomaly = true
+			}
+			c.expired, c.cancelled = true, true
+			role := "joiner"
+			for _, f := range s.fetches {
+				if f.owner == st.id {
+					role = "starter"
+				}
+				if f.at == "gate" && !f.ended && !f.expectAb {
+					if dl, ok := f.ctx.Deadline(); ok && !dl.After(time.Now()) {
+						select {
+						case <-f.ctx.Done():
+						case <-time.After(c13Timeout):
+						}
+					}
+					if f.ctx.Err() != nil {
+						f.expectAb = true
+						s.running++
+					}
+				}
+			}
+			if c.fin {
+				role = "returned"
+			} else if c.at == "" || c.at == "cache" || c.at == "lock" {
+				role = "early" // its deadline passes before the call has reached the shared download
+			}
+			s.await()
+			emit(fmt.Sprintf("expire:%d", st.id))
+			stats["expire"]++
+			stats["expire-"+role]++
 		case "rot":
 			rots++
 			for _, f := range s.fetches {
@@ -933,6 +1047,16 @@ func c13RunSchedule(r *hx.Rand, caseID string, skip bool, script []string, out i
 			s.await()
 			emit(fmt.Sprintf("upd:%d", st.id))
 		}
+		for _, c := range s.callers {
+			// a deadline that passed while another step ran: what was observed can no longer be attributed to steps
+			if !c.deadline.IsZero() && !c.expired && !time.Now().Before(c.deadline) {
+				void = true
+			}
+		}
+		if void {
+			stats["void-deadline-raced"]++
+			break
+		}
 		if s.stuck {
 			// whoever was released and neither parked nor returned
 			put("stuck::")
@@ -950,11 +1074,13 @@ func c13RunSchedule(r *hx.Rand, caseID string, skip bool, script []string, out i
 			unfinished++
 		}
 	}
-	if unfinished > 0 && !s.stuck && !s.anomaly {
+	if unfinished > 0 && !s.stuck && !s.anomaly && !void {
 		put("stuck::")
 		stats["unfinished"]++
 	}
-	if s.stuck || s.anomaly || unfinished > 0 {
+	if void {
+		s.abort()
+	} else if s.stuck || s.anomaly || unfinished > 0 {
 		// releasing the parked goroutines of a schedule that went wrong could run the library into a panic of its own
 		// goroutine (nil request, double close), which would take the harness down: leave them parked
 		s.frozen.Store(true)
@@ -972,7 +1098,18 @@ func c13RunSchedule(r *hx.Rand, caseID string, skip bool, script []string, out i
 	}
 	stats["callers-"+strconv.Itoa(len(s.callers))]++
 	stats["fetches-"+strconv.Itoa(min(len(s.fetches), 5))]++
-	fmt.Fprintf(out, " ns=%d\n", nsteps)
+	if deadlines > 0 {
+		stats["schedules-with-deadline-calls"]++
+	}
+	if void {
+		retry := ""
+		if scripted && attempt < 3 {
+			retry = " retry=1" // a directed schedule is tried again (c13RunJobs); the parent drops every void line
+		}
+		fmt.Fprintf(out, " ns=%d void=1%s\n", nsteps, retry)
+	} else {
+		fmt.Fprintf(out, " ns=%d\n", nsteps)
+	}
 	if f, ok := out.(interface{ Flush() error }); ok {
 		f.Flush()
 	}
@@ -1070,6 +1207,21 @@ var c13Directed = []struct {
 	// a SUCCESSFUL download of the empty key set replaces the cache: the retired key verifies nothing any more
 	{"empty-set-replaces-cache", false, []string{"rot:k1.sig.2.EC.1", "start:k1:2", "go:0", "go:0", "resp:0:ok", "upd:0", "go:0", "rot:", "start:k9:2", "go:1", "go:1", "resp:1:null", "upd:1", "go:1",
 		"start:k1:2", "go:2", "go:2", "resp:2:e5xx", "upd:2", "go:2"}},
+	// DEADLINES (context.WithDeadline / WithTimeout: a request handler with a timeout). The call that STARTED the shared download carries a
+	// deadline, a second call without one joins the download, the endpoint answers only after the starter's deadline has passed: the
+	// starter fails with its own context error, the joiner (live context, token signed with a served key) verifies
+	{"deadline-starter", false, []string{"rot:k1.sig.2.EC.1", "startd:k1:2", "start:k1:2", "go:0", "go:1", "go:0", "go:1", "expire:0", "go:0", "resp:0:ok", "upd:0", "upd:0", "go:1"}},
+	// … the same with two joiners, one of which carries a (later, never reached) deadline of its own
+	{"deadline-starter-two-joiners", false, []string{"rot:k1.sig.2.EC.1", "startd:k1:2", "start:k1:2", "go:0", "go:1", "go:0", "go:1", "expire:0", "startd:k1:2", "go:2", "go:2", "go:0",
+		"resp:0:ok", "upd:0", "upd:0", "go:1", "go:2"}},
+	// the starter's deadline has ALREADY passed when it creates the download (the call still creates the request others will share)
+	{"deadline-passed-starter-creates", false, []string{"rot:k1.sig.2.EC.1", "startd:k1:2", "expire:0", "start:k1:2", "go:0", "go:1", "go:0", "go:1", "resp:0:ok", "upd:0", "upd:0", "go:1", "go:0"}},
+	// the JOINER carries the deadline: it alone fails (own context error), the download and the starter are untouched
+	{"deadline-joiner", false, []string{"rot:k1.sig.2.EC.1", "start:k1:2", "startd:k1:2", "go:0", "go:1", "go:0", "go:1", "expire:1", "go:1", "resp:0:ok", "upd:0", "upd:0", "go:0"}},
+	// the starter's deadline passes, the download FAILS afterwards (5xx): the joiner gets the download's error, not a context error
+	{"deadline-starter-then-5xx", false, []string{"rot:k1.sig.2.EC.1", "startd:k1:2", "start:k1:2", "go:0", "go:1", "go:0", "go:1", "expire:0", "resp:0:e5xx", "upd:0", "upd:0", "go:1", "go:0"}},
+	// a deadline-carrying call served from the cache after its deadline has passed elsewhere in the run; a starter cancelled AND past its deadline
+	{"deadline-and-cancel-starter", false, []string{"rot:k1.sig.2.EC.1", "startd:k1:2", "start:k1:2", "go:0", "go:1", "go:0", "go:1", "cancel:0", "expire:0", "go:0", "resp:0:ok", "upd:0", "upd:0", "go:1"}},
 	// a waiter's own cancellation fails only itself
 	{"cancel-waiter", false, []string{"rot:k1.sig.2.EC.1", "start:k1:2", "start:k1:2", "go:0", "go:1", "go:0", "go:1", "cancel:1", "go:1", "resp:0:ok"}},
 }
@@ -1129,8 +1281,14 @@ func c13RunJobs(base uint64, jobs []c13Job, from int, out io.Writer) map[string]
 		if job.random {
 			skip = r.Chance(15)
 		}
-		for k, v := range c13RunSchedule(r, job.id, skip, job.script, out) {
-			stats[k] += v
+		for attempt := 0; ; attempt++ {
+			st := c13RunSchedule(r, job.id, skip, job.script, attempt, out)
+			for k, v := range st {
+				stats[k] += v
+			}
+			if st["void-deadline-raced"] == 0 || job.random || attempt >= 3 {
+				break
+			}
 		}
 		if !job.random {
 			stats["directed"]++
@@ -1173,14 +1331,23 @@ func c13Stream(r *hx.Rand, tier string, n int, w *bufio.Writer) map[string]int {
 	base := r.U64()
 	jobs := c13Jobs(n)
 	if os.Getenv("C13_INPROC") != "" {
-		return c13RunJobs(base, jobs, 0, w)
+		var buf bytes.Buffer
+		st := c13RunJobs(base, jobs, 0, &buf)
+		for _, ln := range strings.SplitAfter(buf.String(), "\n") {
+			if !strings.Contains(ln, " void=1") {
+				w.WriteString(ln)
+			}
+		}
+		return st
 	}
 	stats := map[string]int{}
 	exe, err := os.Executable()
 	if err != nil {
 		exe = os.Args[0]
 	}
-	if tier == "thorough" && os.Getenv("C13_NOSOAK") == "" {
+	// the unscheduled -race soak belongs to the thorough tier proper; the SEARCH after a broken proof obligation in the quick tier
+	// (thorough generators, capped number of schedules: `cases.search` in checklib/props.d/C13.json) does without its 20 s + race build
+	if tier == "thorough" && os.Getenv("C13_NOSOAK") == "" && n >= 20000 {
 		w.WriteString(c13Soak(base) + "\n")
 		stats["soak"]++
 	}
@@ -1205,6 +1372,11 @@ func c13Stream(r *hx.Rand, tier string, n int, w *bufio.Writer) map[string]int {
 					if len(f) == 3 {
 						v, _ := strconv.Atoi(f[2])
 						stats[f[1]] += v
+					}
+				} else if strings.Contains(ln, " void=1") {
+					// a schedule whose deadline raced with another step (harness timing, counted as void-deadline-raced): not a case
+					if !strings.Contains(ln, " retry=1") {
+						j++
 					}
 				} else {
 					w.WriteString(ln)
